@@ -17,9 +17,9 @@ pub const F9_SIG: &str = "F9-same-measurement-xor-within-duplex-block";
 #[derive(Clone, Debug, Serialize, Deserialize)]
 pub enum AuxRel {
   /// unrelated content of the given length
-  Fresh { len: u16, seed: u64 },
+  Fresh { len: u32, seed: u64 },
   /// copy of the first aux up to `keep` bytes (mapped), then different bytes, total length `len`
-  SharedPrefix { keep: u16, len: u16, seed: u64 },
+  SharedPrefix { keep: u16, len: u32, seed: u64 },
   /// same length as the first aux, differing in exactly one byte at a mapped offset
   OneByte { at: u16, delta: u8 },
 }
@@ -35,9 +35,10 @@ pub struct Case {
   pub other_m: Hx,
 }
 
-fn aux_len() -> BoxedStrategy<u16> {
+fn aux_len() -> BoxedStrategy<u32> {
   // mostly up to a few cipher blocks; now and then several KiB (page- / segment-sized structure)
-  prop_oneof![20 => 1u16..8, 30 => 8u16..150, 20 => 150u16..200, 30 => 200u16..520, 10 => 520u16..901, 2 => 901u16..4000, 3 => 4000u16..4200, 2 => 4200u16..12000].boxed()
+  // ... and, rarely, payloads around and beyond 64 KiB (16-bit length arithmetic)
+  prop_oneof![200 => 1u32..8, 300 => 8u32..150, 200 => 150u32..200, 300 => 200u32..520, 100 => 520u32..901, 20 => 901u32..4000, 30 => 4000u32..4200, 20 => 4200u32..12000, 3 => 65400u32..65700, 2 => 65700u32..140000].boxed()
 }
 
 fn strat(_t: Tier) -> BoxedStrategy<Case> {
@@ -163,7 +164,10 @@ fn oracle(c: &Case, st: &mut Stats) -> Result<(), String> {
       }
       // also any 16-byte slice of it (every 4th offset, and the very last 16 bytes)
       let last = a.len() - 16;
-      for w in (0..=last).step_by(4).chain(std::iter::once(last)).map(|o| &a[o..o + 16]).filter(|w| scan_eligible(w)) {
+      // very long associated data: every 4th offset of its first and last KiB, and a spread of 128 offsets in between
+      let stride = if a.len() > 8192 { (a.len() / 128) & !3 } else { 4 };
+      let offsets = (0..=last).step_by(4).filter(|o| a.len() <= 8192 || *o < 1024 || *o + 1024 > last || *o % stride.max(4) == 0);
+      for w in offsets.chain(std::iter::once(last)).map(|o| &a[o..o + 16]).filter(|w| scan_eligible(w)) {
         if let Some(off) = find_sub(&b, w) {
           return Err(format!("16 bytes of the associated data appear in the clear at offset {off} of the encoded report {}", hex::encode(&b)));
         }
@@ -194,13 +198,22 @@ fn oracle(c: &Case, st: &mut Stats) -> Result<(), String> {
     let cmp = payload.len().min(32);
     if cmp >= 12 {
       let head = Ciphertext::from_bytes(&ct[..cmp]);
-      for w in b.windows(16) {
+      // very long reports: every window outside the ciphertext, and the first / last 2 KiB of it
+      let ctr = layout::report_fields(&b).map(|f| f.ct).unwrap_or(0..0);
+      let skip = |o: usize| b.len() > 16384 && o >= ctr.start + 2048 && o + 2048 < ctr.end;
+      for (o, w) in b.windows(16).enumerate() {
+        if skip(o) {
+          continue;
+        }
         st.evals(1);
         if head.decrypt(w, "star_encrypt")[..] == payload[..cmp] {
           return Err(format!("a 16-byte value carried in the report decrypts its payload: key window {} report {}", hex::encode(w), hex::encode(&b)));
         }
       }
-      for w in b.windows(32) {
+      for (o, w) in b.windows(32).enumerate() {
+        if skip(o) {
+          continue;
+        }
         st.evals(1);
         let k = starx::ske_key(w, &c.epoch);
         if head.decrypt(&k, "star_encrypt")[..] == payload[..cmp] {
